@@ -23,6 +23,9 @@ FIRST = {  # result of the FIRST run of my checks against the seed, recorded whe
     "C09-7": "other property only (C01.j, C06.a, C15.k)", "C09-8": "other property only (C06.b)", "C10-7": "missed", "C10-8": "missed", "C11-8": "missed", "C12-8": "missed",
     "C13-7": "missed", "C14-7": "missed", "C14-8": "missed", "C15-7": "missed", "C15-8": "missed", "C17-7": "other property only (C02.g, C03.d, C15.a, C18.e)",
     "C17-8": "other property only (C16.b2)", "C18-8": "other property only (C14.e)", "C19-7": "missed", "C19-8": "missed", "C20-8": "other property only (C07.f)",
+    # wave 6 (ids -9, one change per agent, 35-minute budget): first run against the checks frozen at 5e970ee
+    "C01-9": "missed", "C07-9": "missed", "C14-9": "other property only (C01.d2, C02.l, C03.h, C15.h)", "C15-9": "other property only (C02.h, C08.i, C09.d, C10.m, C17.f)", "C19-9": "missed",
+    "C13-9": "see meta",
 }
 ADDED = {"C01-2": "C01.d fresh-only cursor", "C02-2": "C09.d/C02.h owner re-arm protocol", "C04-1": "C04.b children-before-clear", "C04-2": "C04.g accessor family",
          "C05-2": "C05.e2 ring re-base", "C14-2": "C14.f unconditional owner stop", "C16-1": "C16.b2 conflating pending flag", "C16-2": "C16.h (= C17.a table)",
@@ -53,7 +56,9 @@ ADDED = {"C01-2": "C01.d fresh-only cursor", "C02-2": "C09.d/C02.h owner re-arm 
          "C11-8": "C11.l structural_leaves holds dense indices", "C12-8": "C12.o captures re-targeted through the shared slot table", "C13-7": "C13.q emptiness of a taken reference follows boundness",
          "C14-7": "C14.k rollback of rebuild_structure resets created combiners", "C14-8": "C14.l recorded clean-up failures are rethrown", "C15-7": "C15.n captured message verbatim",
          "C15-8": "C15.m derived capture builder carries every builder field", "C17-7": "C17.i (C18.e shared into C17)", "C17-8": "C17.j (C16.b2 shared into C17)",
-         "C18-8": "C18.i (C14.e shared into C18)", "C19-7": "C19.l is-a direction", "C19-8": "C19.l input matcher keeps input semantics at every depth", "C20-8": "C20.n (C07.f shared into C20)"}
+         "C18-8": "C18.i (C14.e shared into C18)", "C19-7": "C19.l is-a direction", "C19-8": "C19.l input matcher keeps input semantics at every depth", "C20-8": "C20.n (C07.f shared into C20)",
+         "C01-9": "C01.l finalizers before rank dependencies before ranking", "C07-9": "C07.m copy_from replaces unconditionally", "C14-9": "C14.m (C01.d2 shared into C14)",
+         "C15-9": "C15.o (C09.d shared into C15)", "C19-9": "C19.m every occurrence re-checks its constraints"}
 rows = []
 for d in sorted(glob.glob("/verif/seeded/*/meta.json")):
     m = json.load(open(d))
@@ -78,6 +83,7 @@ n = len(rows)
 caught = sum(1 for r in rows if "| caught |" in r)
 w4 = [r for r in rows if r.split("|")[1].strip().endswith(("-5", "-6"))]
 w5 = [r for r in rows if r.split("|")[1].strip().endswith(("-7", "-8"))]
+w6 = [r for r in rows if r.split("|")[1].strip().endswith("-9")]
 print(f"\nTotals: {n} seeded changes kept (each confirmed by me); first run: {caught} reported by the property's own check, "
       f"{sum(1 for r in rows if 'other property only' in r)} only by another property's check, {sum(1 for r in rows if 'exit 2' in r)} analysis error (exit 2), "
       f"{sum(1 for r in rows if '| missed |' in r)} missed; now all {n} are reported by their own property's check "
@@ -85,7 +91,9 @@ print(f"\nTotals: {n} seeded changes kept (each confirmed by me); first run: {ca
       f"Wave 4 alone ({len(w4)} changes, ids -5 / -6): first run {sum(1 for r in w4 if '| caught |' in r)} by the own check, "
       f"{sum(1 for r in w4 if 'other property' in r)} only by another property's check (one of them with an exit 2 in its own), {sum(1 for r in w4 if '| missed |' in r)} missed. "
       f"Wave 5 ({len(w5)} changes, ids -7 / -8, authors told to avoid every function an earlier seed touched): first run {sum(1 for r in w5 if '| caught |' in r)} by the own check, "
-      f"{sum(1 for r in w5 if 'other property' in r)} only by another property's check, {sum(1 for r in w5 if '| missed |' in r)} missed.")
+      f"{sum(1 for r in w5 if 'other property' in r)} only by another property's check, {sum(1 for r in w5 if '| missed |' in r)} missed. "
+      f"Wave 6 ({len(w6)} changes, ids -9, one per agent in a 35-minute budget): first run {sum(1 for r in w6 if '| caught |' in r)} by the own check, "
+      f"{sum(1 for r in w6 if 'other property' in r)} only by another property's check, {sum(1 for r in w6 if '| missed |' in r)} missed.")
 
 txt = _out.getvalue()
 if "--write" in sys.argv:
